@@ -53,7 +53,11 @@ def main(tier):
         "part, redirect_to, need_pre_expand, model or 'wikitext'); get_page issues no write, never looks up the empty "
         "title, and in the main namespace queries exactly norm_get_main(title) with the namespace id; page_exists and "
         "get_page_resolve_redirect are built from get_page only; close_db_conn commits before closing. "
-        "NOT proved: the spelling-insensitivity lemmas for non-main namespaces (alias/case prefixes) and SQLite's "
+        "Spelling lemmas (one call each): a plain name (no colon) is stored by add_page under local-prefix:name; "
+        "get_page on the plain name queries local-prefix:name-with-blanks-for-underscores, and get_page on a title "
+        "that already carries the local prefix queries that title with blanks for underscores -- so prefix given or "
+        "omitted and underscores versus blanks reach the stored key. "
+        "NOT proved: aliased / other-case prefixes (depend on the contents of namespace_prefixes) and SQLite's "
         "own semantics (upsert, UNION ALL ... LIMIT 1, durability). "
         "B (bounded, not counted as proved): operation sequences on a real SQLite file against the abstract map.")
     rep.assumptions += ["sqlite3 executes the statement text with the parameters as documented (external contract)",
